@@ -1060,6 +1060,26 @@ impl Monitors {
                     }
                 }
             }
+            // the same for our FIN once it is the only thing outstanding - whoever closed first
+            if due_now && rec.peer_sent.is_empty() && w.done.is_none() && rec.rejected.is_empty() && first_unacked.is_none() {
+                if let Some(fs) = self.fin_seq {
+                    let closing = matches!(ob.state, "fin-wait-1" | "last-ack");
+                    if closing && !self.fin_acked_by_peer && !self.reset_seen && !rec.emitted.iter().any(|e| e.hdr.ptype == 1 && e.hdr.seq == fs) {
+                        v.push(f(
+                            "C06",
+                            "rto-timer",
+                            "rtx/fin-not-retransmitted-at-timeout",
+                            format!("the retransmission timeout expired at {} us in state {} with our ST_FIN (seq {}) unacknowledged, and it was not put on the wire again", rec.t_us, ob.state, fs),
+                        ));
+                        v.push(f(
+                            "C17",
+                            "teardown",
+                            "fin/not-retransmitted-at-timeout",
+                            format!("the retransmission timeout expired at {} us in state {} with our ST_FIN (seq {}) unacknowledged, and it was not put on the wire again", rec.t_us, ob.state, fs),
+                        ));
+                    }
+                }
+            }
             if let Some(n) = self.after_rto {
                 if n > 1 {
                     v.push(f(
